@@ -360,6 +360,35 @@ class Gen:
             kw.update(k)
             s = {"k": "op", "h": h, "f": f, "a": [{"h": a}]}
             ops = s["a"]
+        elif fam == "matmul" and A.ndim in (1, 2) and A.size and not self.lowprec and r.random() < 0.3:
+            # multi_matmul: a chain of three or four operands; both ends 2-D or both 1-D (with exactly one 1-D end the result
+            # is a view of a tensor the program cannot name: those are cells of OpTable only)
+            n_ops = r.choice([3, 3, 4])
+            pos = r.randrange(n_ops) if A.ndim == 2 else r.choice([0, n_ops - 1])
+            ends1d = A.ndim == 1 or (0 < pos < n_ops - 1 and r.random() < 0.3)
+            dims = [r.choice([1, 2, 3]) for _ in range(n_ops + 1)]
+            if A.ndim == 2:
+                dims[pos], dims[pos + 1] = A.shape
+            elif pos == 0:
+                dims[1] = A.shape[0]
+            else:
+                dims[n_ops - 1] = A.shape[0]
+            ops = []
+            for i in range(n_ops):
+                if i == pos:
+                    ops.append({"h": a})
+                    continue
+                shp = [dims[1]] if (i == 0 and ends1d) else [dims[n_ops - 1]] if (i == n_ops - 1 and ends1d) else [dims[i], dims[i + 1]]
+                x = r.random()
+                cands = [q for q in self.live() if list(self.arr(q).shape) == shp and self.arr(q).dtype.kind == "f"
+                         and self.arr(q).dtype.itemsize == 8]
+                if x < 0.25:
+                    ops.append({"arr": {"sh": shp, "v": self.rand_vals(int(np.prod(shp)))}})
+                elif cands and x < 0.6:
+                    ops.append({"h": r.choice(cands)})
+                else:
+                    ops.append({"h": self.leaf(shp)})
+            s = {"k": "op", "h": h, "f": "multimatmul", "a": ops}
         elif fam == "matmul":
             if A.ndim == 0:
                 return False
@@ -1088,7 +1117,8 @@ PROFILES = {
                 w_view=0.25, w_inplace=0.15, max_leaves=3, max_steps=7, p_const_leaf=0.15, max_epochs=2, p_seed=0.5,
                 p_nonscalar_L=0.5, editgrad=True, w_misc=0.1, misc=["copy"]),
     "c13": dict(functional=["bin", "bin", "un", "red", "matmul", "gathercopy"], w_func=0.4, w_view=0.25, w_inplace=0.2,
-                max_leaves=2, max_steps=9, p_const_leaf=0.15, w_misc=0.3, misc=["fail"], max_epochs=2, p_bad_seed=0.1),
+                max_leaves=2, max_steps=9, p_const_leaf=0.15, w_misc=0.3, misc=["fail"], max_epochs=3, p_bad_seed=0.1,
+                p_keep_stale=0.5, p_reuse_stale=0.7),
     "c14": dict(functional=["bin", "bin", "un", "power", "red", "matmul", "where", "join", "gathercopy",
                             "act", "cum", "seq", "einsum", "conv", "pool", "loss"], w_func=0.65,
                 w_view=0.25, w_inplace=0.1, max_leaves=3, max_steps=6, p_const_leaf=0.15, p_seed=0.55, p_bad_seed=0.15,
